@@ -259,6 +259,123 @@ func emitFragment(e *emitter, p *pkg) {
 		})
 	}
 	strFact("txLoop", loop, loop != "")
+
+	// --- transcripts: the sender hashes the marshalled, unfragmented `data` before it splits;
+	// the receiver hashes the delivered (rebuilt) message once
+	calls := func(fn, prefix string) (out []string, pos []token.Pos) {
+		fd := p.funcs[fn]
+		if fd == nil || fd.Body == nil {
+			return
+		}
+		ast.Inspect(fd.Body, func(n ast.Node) bool {
+			if c, ok := n.(*ast.CallExpr); ok && strings.HasPrefix(p.src(c), prefix) {
+				out = append(out, p.src(c))
+				pos = append(pos, c.Pos())
+			}
+			return true
+		})
+		return
+	}
+	tw, twPos := calls("Conn.writeHandshakeRecord", "transcript.Write(")
+	if tw == nil {
+		tw = []string{}
+	}
+	e.strList("txTranscriptWrites", tw)
+	before, marshalOK, dataAssigns := false, false, 0
+	if fd := p.funcs["Conn.writeHandshakeRecord"]; fd != nil {
+		var mpPos token.Pos
+		ast.Inspect(fd.Body, func(n ast.Node) bool {
+			if as, ok := n.(*ast.AssignStmt); ok {
+				l := ""
+				for i, x := range as.Lhs {
+					if i > 0 {
+						l += ", "
+					}
+					l += p.src(x)
+				}
+				if l == "maxPayload" && mpPos == 0 {
+					mpPos = as.Pos()
+				}
+				for _, x := range as.Lhs {
+					if p.src(x) == "data" {
+						dataAssigns++
+						if l == "data, err" && len(as.Rhs) == 1 && p.src(as.Rhs[0]) == "msg.marshal()" {
+							marshalOK = true
+						}
+					}
+				}
+			}
+			return true
+		})
+		before = len(twPos) == 1 && mpPos != 0 && twPos[0] < mpPos
+	}
+	e.boolean("txTranscriptBeforeSplit", before)
+	e.boolean("txDataIsMarshal", marshalOK && dataAssigns == 1)
+	// the fragment loop builds every header in a fresh local array and never writes into the
+	// marshalled encoding (`data` / `hdr` alias the message's cached raw bytes)
+	fresh := false
+	if fd := p.funcs["Conn.writeHandshakeRecord"]; fd != nil {
+		ast.Inspect(fd.Body, func(n ast.Node) bool {
+			fs, ok := n.(*ast.ForStmt)
+			if !ok {
+				return true
+			}
+			decl, clean := false, true
+			ast.Inspect(fs.Body, func(m ast.Node) bool {
+				switch x := m.(type) {
+				case *ast.DeclStmt:
+					if strings.HasPrefix(p.src(x), "var fragHdr [dtlcpHeaderLen]byte") {
+						decl = true
+					}
+				case *ast.AssignStmt:
+					for _, l := range x.Lhs {
+						if ie, ok := l.(*ast.IndexExpr); ok && p.src(ie.X) != "fragHdr" {
+							clean = false
+						}
+						if se, ok := l.(*ast.SliceExpr); ok && p.src(se.X) != "fragHdr" {
+							clean = false
+						}
+					}
+				case *ast.CallExpr:
+					if len(x.Args) > 0 {
+						a0 := p.src(x.Args[0])
+						f := p.src(x.Fun)
+						if (a0 == "hdr" || a0 == "data" || strings.HasPrefix(a0, "hdr[") || strings.HasPrefix(a0, "data[")) && f != "len" {
+							clean = false
+						}
+					}
+				}
+				return true
+			})
+			fresh = decl && clean
+			return false
+		})
+	}
+	e.boolean("txLoopBuildsFreshHeader", fresh)
+	rw, rwPos := calls("Conn.readHandshake", "transcript.Write(")
+	if rw == nil {
+		rw = []string{}
+	}
+	e.strList("rxTranscriptWrites", rw)
+	after := false
+	if fd := p.funcs["Conn.readHandshake"]; fd != nil && len(rwPos) == 1 {
+		var rebuilt, unm token.Pos
+		ast.Inspect(fd.Body, func(n ast.Node) bool {
+			switch x := n.(type) {
+			case *ast.AssignStmt:
+				if p.src(x) == "data = append(fullHeader, fragmentData...)" {
+					rebuilt = x.Pos()
+				}
+			case *ast.CallExpr:
+				if p.src(x) == "m.unmarshal(data)" {
+					unm = x.Pos()
+				}
+			}
+			return true
+		})
+		after = rebuilt != 0 && unm != 0 && rebuilt < rwPos[0] && unm < rwPos[0]
+	}
+	e.boolean("rxTranscriptAfterRebuild", after)
 }
 
 func fragItoa(i int) string {
